@@ -718,7 +718,10 @@ def _read_set(ctx: ReaderContext) -> lset.PersistentSet:
     assert start == "{"
 
     def set_if_valid(s: Collection) -> lset.PersistentSet:
-        coll_set = set(s)
+        try:
+            coll_set = set(s)
+        except TypeError as e:
+            raise ctx.syntax_error(f"Set members must be hashable: {e}") from e
         if len(s) != len(coll_set):
             dupes = ", ".join(
                 lrepr(k) for k, v in collections.Counter(s).items() if v > 1
@@ -835,7 +838,10 @@ def _read_namespaced_map(ctx: ReaderContext) -> lmap.PersistentMap:
                 "be specified as keywords without namespaces"
             )
 
-    _consume_whitespace(ctx)
+    if _consume_whitespace(ctx) != "{":
+        if ctx.reader.peek() == "":
+            raise ctx.eof_error("Unexpected EOF after map namespace")
+        raise ctx.syntax_error("Expected a map after the map namespace")
 
     return _read_map(ctx, namespace=map_ns)
 
@@ -1724,6 +1730,12 @@ def _resolve_tagged_literal(
             return data_reader(v)
         except SyntaxError as e:
             raise ctx.syntax_error(e.message).with_traceback(e.__traceback__) from None
+        except Exception as e:
+            # data readers validate their input however they like (e.g. by letting a
+            # TypeError escape for `#inst 5`); to callers it is a malformed literal
+            raise ctx.syntax_error(
+                f"Invalid form for tagged literal #{s}: {e}"
+            ).with_traceback(e.__traceback__) from e
     elif s.ns is None and "." in s.name:
         return _load_record_or_type(ctx, s, v)
     else:
